@@ -252,13 +252,26 @@ func (e *env) evalAggregate(f *FuncCall, name string, spec aggSpec) (any, error)
 				return badArgf("%s needs a condition argument", f.Name)
 			}
 			cond := args[len(args)-1]
+			// The value arguments of a row rejected by the condition still tell
+			// that their type is Nullable: in ClickHouse the Null adapter then
+			// makes the result over zero admitted rows NULL (typing is dynamic
+			// here, so a NULL seen in any row is the only available evidence).
+			noteNull := func() {
+				for _, a := range args[:len(args)-1] {
+					if a == nil {
+						sawNull = true
+					}
+				}
+			}
 			if cond == nil {
+				noteNull()
 				return nil
 			}
 			if _, ok := kindOf(cond); !ok {
 				return typeErrf("illegal type %s of the condition of %s", typeNameOf(cond), f.Name)
 			}
 			if t, _ := truthy(cond); !t {
+				noteNull()
 				return nil
 			}
 			return feed(args[:len(args)-1], ci-1)
